@@ -41,6 +41,10 @@ type WSEnd struct {
 	rawSent []wsMsg
 	dlExpired bool
 	writeLog []string
+	rawPeer  bool
+	lockset  []int
+	locksetInit bool
+	unlockedWrites []string
 }
 
 type WSConnPair struct {
@@ -186,6 +190,7 @@ func (g *G) wsBeginWrite(e *WSEnd, typ int) (Value, Value) {
 	if e.writing != nil {
 		g.goPanicPlain("concurrent write to websocket connection")
 	}
+	g.run.recordConnWrite(g, e, "data write")
 	e.writing = g
 	w := new(Value)
 	*w = &wsWriter{end: e, typ: typ, buf: &Blob{}}
@@ -299,6 +304,12 @@ func init() {
 	C("WriteMessage", func(g *G, e *WSEnd, fn *ssa.Function, a []Value) Value {
 		typ := int(a[0].(Int).C)
 		if typ == websocket.PingMessage || typ == websocket.PongMessage || typ == websocket.CloseMessage {
+			// WriteMessage sends control frames through the data path (beginMessage/flushFrame),
+			// so it must be serialised with the other writers, unlike WriteControl
+			if e.wrErr == nil && e.writing != nil {
+				g.goPanicPlain("concurrent write to websocket connection")
+			}
+			g.run.recordConnWrite(g, e, "control write via WriteMessage")
 			return g.wsWriteControl(e, typ)
 		}
 		w, err := g.wsBeginWrite(e, typ)
@@ -498,6 +509,7 @@ func init() {
 		pair := l.pending[0]
 		l.pending = l.pending[1:]
 		l.accepted++
+		pair.server.rawPeer = true
 		return g.wsConnValue(pair.server)
 	})
 	L("TryAccept", func(g *G, l *Listener, a []Value) Value {
@@ -521,6 +533,7 @@ func init() {
 		pair := r.newWSPair(l.url)
 		g.spawnServerConn(l, pair)
 		g.schedPoint(&Op{desc: "raw dial", enabled: func() bool { return true }})
+		pair.client.rawPeer = true
 		return g.wsConnValue(pair.client)
 	})
 	PC := func(name string, f func(g *G, e *WSEnd, a []Value) Value) {
